@@ -169,7 +169,7 @@ fn build(s: &str, l: usize) -> Option<Regex> {
 }
 
 pub fn run(ctx: &Ctx) -> Outcome {
-    let sp = spaces::unrestricted(ctx.tier, ctx.seed ^ 7, 3, 4, 4_000, 40_000);
+    let sp = spaces::unrestricted(ctx.tier, ctx.seed ^ 7, 3, 4, 20_000, 80_000);
     let mut patterns = sp.patterns;
     if ctx.tier == Tier::Quick {
         // a seeded sample of the 4-node trees
